@@ -300,8 +300,51 @@ def vs_of(t, cons):
     return r
 
 
+def eval_term(t, env):
+    """value of a term under an assignment of its tokens (used only to compute the best value set of a
+    term that depends on a *single* token: the image of that token's own abstract set)"""
+    k = t[0]
+    if k == 'c':
+        return t[1]
+    if k == 't':
+        return env[t]
+    if k == 'cast':
+        return wrap_val(eval_term(t[2], env), t[1])
+    if k == 'op':
+        a, b = eval_term(t[2], env), eval_term(t[3], env)
+        if t[1] in ('Div', 'Rem') and b == 0:
+            raise ZeroDivisionError
+        v = _PYOP[t[1]](a, b)
+        return wrap_val(v, t[4]) if t[4] else v
+    if k == 'cmp':
+        return int(_CMP[t[1]](eval_term(t[2], env), eval_term(t[3], env)))
+    if k == 'not':
+        return 1 - eval_term(t[1], env)
+    raise KeyError(k)
+
+
+def _single_token_image(t, cons):
+    toks = tokens_of(t)
+    if len(toks) != 1:
+        return None
+    tok = next(iter(toks))
+    if tok[2] == 'opaque':
+        return None
+    v = vs_of(tok, cons)
+    if v.s is None or len(v.s) > EXPL:
+        return None
+    try:
+        return VS.of({eval_term(t, {tok: x}) for x in v.s})
+    except (KeyError, ZeroDivisionError):
+        return None
+
+
 def _vs(t, cons):
     k = t[0]
+    if k in ('op', 'cmp', 'cast') and _nested(t):
+        img = _single_token_image(t, cons)
+        if img is not None:
+            return img
     if k == 'cast':
         return wrap_vs(vs_of(t[2], cons), t[1])
     if k == 'op':
@@ -314,6 +357,14 @@ def _vs(t, cons):
         a = vs_of(t[1], cons)
         return VS.of({1 - x for x in a.s}) if a.s is not None else BOOLVS
     return TOPVS
+
+
+def _nested(t):
+    """does the same token possibly occur on both sides (only then is the pointwise image more precise)"""
+    if t[0] == 'cast':
+        return _nested(t[2]) if t[2][0] in ('op', 'cmp', 'cast') else False
+    a, b = t[2], t[3]
+    return a[0] != 'c' and b[0] != 'c'
 
 
 def _vs_op(op, a, b):
@@ -729,6 +780,32 @@ def norm_pred(t, truth, cons):
     if op == 'ne':
         op, truth = 'eq', not truth
     if op == 'eq':
+        # (x ^ y) == c   <=>   x == y ^ c : compare bit by bit (c constant)
+        for u, w in ((a, b), (b, a)):
+            if u[0] == 'op' and u[1] == 'BitXor' and vs_of(w, cons).single() and vs_of(w, cons).lo >= 0:
+                cval = vs_of(w, cons).lo
+                bx, by = bits_of(u[2], cons, 64), bits_of(u[3], cons, 64)
+                if known(bx) and known(by):
+                    pairs = set()
+                    ok = True
+                    for j, (x, y) in enumerate(zip(bx, by)):
+                        cj = (cval >> j) & 1
+                        if x in (0, 1) and y in (0, 1):
+                            if (x ^ y) != cj:
+                                return ('const', False, truth)
+                            continue
+                        if x in (0, 1) or y in (0, 1):
+                            k, sym = (x, y) if x in (0, 1) else (y, x)
+                            pairs.add(frozenset([_bk(sym), ('k', k ^ cj)]))
+                            continue
+                        if cj == 0:
+                            if x != y:
+                                pairs.add(frozenset([_bk(x), _bk(y)]))
+                        else:
+                            ok = False
+                            break
+                    if ok:
+                        return ('eq', frozenset(pairs), truth)
         ba, bb = bits_of(a, cons, 64), bits_of(b, cons, 64)
         if known(ba) and known(bb):
             pairs = set()
